@@ -100,7 +100,12 @@ class Model:
         if e in ("@drop", "@rst", "BOOM"):
             self._end(i)
             return []
-        if e in ("PASV", "LIST", "", "FOO"):
+        if "\r\n" in e:
+            # several lines in one segment: only the accounting matters (the last one may be QUIT)
+            if e.endswith("QUIT"):
+                self._end(i)
+            return None
+        if e in ("PASV", "LIST", "", "FOO", "SYST", "NOOP"):
             return None          # replies of these are C05's business; here only the accounting matters
         raise ValueError(e)
 
@@ -308,6 +313,11 @@ RACES = [
     ("rst-then-connect-one-slot", 2, 1, [(0, "@connect"), (0, "@rst!"), (1, "@connect")], 1),
     ("quit-then-connect-one-slot", 2, 1, [(0, "@connect"), (0, "QUIT!"), (1, "@connect")], 1),
     ("login-drop-then-connect-login", 2, 1, [(0, "@connect"), (0, "USER alice"), (0, "@drop!"), (1, "@connect!"), (1, "USER alice")], 2),
+    # several commands and QUIT in one segment from a peer that is gone at once (the reply writer fails while the
+    # commands are still being worked off)
+    ("pipelined-quit-rst", 1, 1, [(0, "@connect"), (0, "SYST\r\nSYST\r\nQUIT!"), (0, "@rst")], 1),
+    ("pipelined-quit-drop", 1, 1, [(0, "@connect"), (0, "SYST\r\nSYST\r\nQUIT!"), (0, "@drop")], 1),
+    ("login-pipelined-quit-rst", 1, 1, [(0, "@connect"), (0, "USER alice"), (0, "PWD\r\nSYST\r\nNOOP\r\nQUIT!"), (0, "@rst")], 2),
     ("relogin-race", 2, 2, [(0, "@connect"), (1, "@connect"), (0, "USER alice"), (0, "USER bob!"), (1, "USER alice")], 3),
     ("boom-while-user", 1, 1, [(0, "@connect"), (0, "USER bob!"), (0, "BOOM")], 1),
     # the same races with a user manager that suspends inside get_user / authenticate / notify_logout: the
@@ -493,7 +503,10 @@ def run(tier, seed, t0):
     parts.append(bfs(2, 1, depth - 1, cap, slow=True))
     bound = 1 if tier == "quick" else 3
     kinds = ["early", "order", "batch"]
-    parts += report.pmap(_race_work, [(c, bound, kinds) for c in RACES])
+    # (the races with several lines in one segment also under every order in which the dispatcher looks at the tasks
+    # that finished in the same turn)
+    parts += report.pmap(_race_work, [(c, max(bound, 3) if "pipelined" in c[0] else bound,
+                                       kinds + (["done"] if "pipelined" in c[0] else [])) for c in RACES])
     parts += report.pmap(_enc_work, [(h, bound, ["early", "order", "done"]) for h in ENC_CASES])
     part = report.merge_all(parts)
     bounds = {"sessions": "2..3", "server_limits": [1, 2, None], "users": {k: v[1] for k, v in USERS.items()},
